@@ -169,12 +169,14 @@ Definition forest_b (u : Z) (pos : nat -> P3) (L : nat) (N : nat) (roots : list 
   once_b N (flat_map (fun cd => leaves (erase (snd cd))) roots).
 
 (* ---- root boxes, per axis (h = root_size/2 in units, n = N_root_x, box = n*root_size) ----
-   reb_get_rootbox_for_particle:  i = ((int)floor((p.x + boxsize.x/2.)/root_size) + N_root_x) % N_root_x   (C %: Z.rem)
-   reb_tree_add_particle_to_cell, new root: i = ((int)floor((p.x + boxsize.x/2.)/root_size)) % N_root_x,
+   reb_get_rootbox_for_particle:  i = (int)floor((p.x + boxsize.x/2.)/root_size); if (i==N_root_x) i = N_root_x-1; i = (i+N_root_x)%N_root_x   (C %: Z.rem)
+   reb_tree_add_particle_to_cell, new root: the same floor and clamp, then i %= N_root_x,
                                             node->x = -boxsize.x/2. + root_size*(0.5+(double)i) *)
 Definition root_fl (h n x : Z) : Z := (x + n * h) / (2 * h).
-Definition root_idx (h n x : Z) : Z := Z.rem (root_fl h n x + n) n.
-Definition root_idx_new (h n x : Z) : Z := Z.rem (root_fl h n x) n.
+(* since /repo da62396: if (i==N_root_x) i = N_root_x-1;  (the upper box border belongs to the last root box) *)
+Definition root_clamp (n f : Z) : Z := if f =? n then n - 1 else f.
+Definition root_idx (h n x : Z) : Z := Z.rem (root_clamp n (root_fl h n x) + n) n.
+Definition root_idx_new (h n x : Z) : Z := Z.rem (root_clamp n (root_fl h n x)) n.
 Definition root_centre (h n i : Z) : Z := - (n * h) + h + 2 * h * i.
 Definition rootbox (h nx ny nz : Z) (p : P3) : Z :=
   let '(x, y, z) := p in (root_idx h nz z * ny + root_idx h ny y) * nx + root_idx h nx x.
